@@ -62,6 +62,7 @@ ASSUMPTIONS = ['sources that are not cleanly tagged (a text fragment fuses '
                'with a neighbouring tag) are discarded and counted; they '
                'are covered by C06']
 CASE_CPU_SECONDS = 300.0
+CASE_CPU_SECONDS_QUICK = 200.0
 
 FREE_TOK = {
     'HTML': ['<', '<d', '<dtml', '<dtml-', '</dtml-', '<!--', '<!--#', '-->',
